@@ -49,7 +49,8 @@ func checkC11(c *Ctx) {
 	for _, extra := range [][2]string{{"oprf", "PrivateKey"}, {"oprf", "PublicKey"}, {"tss/rsa", "KeyShare"}, {"hpke", "Suite"}, {"dh/csidh", "PrivateKey"}, {"dh/csidh", "PublicKey"},
 		{"sign/bls", "PrivateKey"}, {"sign/bls", "PublicKey"}, {"blindsign/blindrsa", "Client"}, {"blindsign/blindrsa", "Verifier"}, {"blindsign/blindrsa", "Signer"},
 		{"oprf", "Client"}, {"oprf", "VerifiableClient"}, {"oprf", "PartialObliviousClient"}, {"oprf", "Server"}, {"oprf", "VerifiableServer"}, {"oprf", "PartialObliviousServer"},
-		{"abe/cpabe/tkn20", "PublicKey"}, {"abe/cpabe/tkn20", "SystemSecretKey"}, {"abe/cpabe/tkn20", "AttributeKey"}} {
+		{"abe/cpabe/tkn20", "PublicKey"}, {"abe/cpabe/tkn20", "SystemSecretKey"}, {"abe/cpabe/tkn20", "AttributeKey"},
+		{"blindsign/blindrsa/partiallyblindrsa", "randomizedVerifier"}, {"blindsign/blindrsa/partiallyblindrsa", "Signer"}, {"blindsign/blindrsa/partiallyblindrsa", "VerifierState"}} {
 		if pk := p.ByPath[circlPath+"/"+extra[0]]; pk != nil {
 			if tn, ok := pk.Types.Scope().Lookup(extra[1]).(*types.TypeName); ok {
 				if n, ok := tn.Type().(*types.Named); ok {
@@ -1151,7 +1152,9 @@ func checkC11GlobalWrite(c *Ctx, p *Program) {
 	mod := p.Mod()
 	var fs []*ssa.Function
 	for f := range p.AllFuncs {
-		if f.Blocks == nil || !isCirclFunc(f) || f.Synthetic != "" || f.Parent() != nil || f.Name() == "init" || strings.HasPrefix(f.Name(), "init#") {
+		// instances of generic functions are inspected as well: only there are the callees on type parameters
+		// resolved
+		if f.Blocks == nil || !isCirclFunc(f) || (f.Synthetic != "" && !strings.HasPrefix(f.Synthetic, "instance of")) || f.Parent() != nil || f.Name() == "init" || strings.HasPrefix(f.Name(), "init#") {
 			continue
 		}
 		if f.Object() == nil || !f.Object().Exported() {
